@@ -57,6 +57,19 @@ Definition bfun_ok (d : nat) (b : bfun) : bool :=
 
 Definition deriv_ok (e : elem) : bool := forallb (bfun_ok (e_dim e)) (e_basis e).
 
+(* every polynomial of the element uses at most d variables (exponent lists of length <= d) *)
+Definition poly_vars_le (n : nat) (p : poly) : bool := forallb (fun t => Nat.leb (length (snd t)) n) p.
+Definition bfun_polys (b : bfun) : list poly :=
+  match b with
+  | BH1 p g => p :: g
+  | BHdiv v dv => dv :: v
+  | BHcurl2 v c => c :: v
+  | BHcurl3 v c => v ++ c
+  | BMat m => concat m
+  end.
+Definition vars_ok (e : elem) : bool :=
+  forallb (fun b => forallb (poly_vars_le (e_dim e)) (bfun_polys b)) (e_basis e).
+
 (* scalar values of an H1 element *)
 Definition value_of (b : bfun) : poly := match b with BH1 phi _ => phi | _ => [] end.
 Definition values (e : elem) : list poly := map value_of (e_basis e).
